@@ -21,7 +21,8 @@ def register(claim, na):
           "Decides structural necessary conditions of EPA's success contract: no read of a NumPy view after its source row "
           "was overwritten (R-ALIAS), every face passes compute_normal and then the winding repair before it is selectable "
           "and the repair is a real vertex swap with normal negation under dot(v0,n)<0 (R-WINDING), support points are "
-          "A-B support points (R-MINK), capacity checks dominate stores (R-GUARDSTORE), the success path returns "
+          "A-B support points (R-MINK), capacity checks dominate stores (R-GUARDSTORE), vertex rows and the normal row of a face "
+          "are never confused and the returned vector has length degree 1 (R-FACEROLE), the success path returns "
           "n*dot(new_point,n) under the convergence test and success is never reported on fall-through (R-MTV), loops are "
           "capped/structural (R-LOOP). Does not decide minimality over all directions nor the 1e-6 residual gap.", "DESIGN.md §4 C07")
     claim("C14", AST + " + abstract interpretation of array ndim/dtype/layout with per-class attribute join (E1)",
@@ -44,8 +45,9 @@ def register(claim, na):
           "(wrench12, wrench21) order preserved through three functions (R-REACTION); every attribute read on a RigidBody / "
           "ContactSurface receiver resolves (R-ATTR); methods that reassign mesh data reset all dependent caches "
           "(R-INVALIDATE); tree and brute-force broad phase take the bodies in the same order, bind the same triple and share "
-          "the aabb_overlap predicate (R-SAMEPREDICATE). The frame of the wrench transform (finding F6) and the body-frame "
-          "AABB are NOT yet covered by a rule in this build. Does not decide the 5% discretisation statements.", "DESIGN.md §4 C16")
+          "the aabb_overlap predicate (R-SAMEPREDICATE); frame consistency of the hydroelastic package incl. the wrench rule taken "
+          "from adjoint_from_transform's docstring (R-FRAME: two known findings, _transform_wrenches rotates by R^T). Does not "
+          "decide the 5% discretisation statements.", "DESIGN.md §4 C16")
     claim("C19", "loop exit-discipline classification (engine E4) over the ast of the narrow-phase modules",
           "Decides the exit discipline only: every loop reachable in the narrow-phase modules is CAP (counter vs bound "
           "advanced on every path; continue paths must clear a one-way flag), STRUCT, PROGRESS (non-strict non-improvement "
@@ -97,7 +99,38 @@ def register(claim, na):
           "the returned weights reproduce the point from the reordered subset (R-JOHNSON, 116 obligations), all 3/7/15 "
           "sub-simplices compared (R-EXHAUSTIVE). Does not decide the 1e-9 accuracy; the fast Johnson path is outside C18.",
           "DESIGN.md §4 C18")
-    for p in ["C03", "C04", "C06", "C10", "C11", "C12", "C13"]:
+    claim("C03", "coordinate-frame abstract interpretation (E2) + path-sensitive sign abstract interpretation of the closed-form "
+                 "support functions + sibling-agreement rules + array-layout interpretation (E1)",
+          "Decides structural necessary conditions of 'the returned point is extreme along d': R-FRAME/R-FRAMERET (direction "
+          "taken into the local frame with the transposed rotation, local point brought back with the full pose, world-frame "
+          "POINT returned - dropped translations are typed as non-points); R-SIGNALIGN (on every return path each local "
+          "component is a non-negative multiple of the same direction component, a constant whose sign the path's tests "
+          "justify, or zero, i.e. <support - centre, d> >= 0; the cone takes the candidate with the larger projection); "
+          "R-MARGIN (inner support + margin * unit(d), delegation); R-AXIS; R-AABBARGS; R-EAGER at the support call sites. Does "
+          "not decide extremeness within 1e-9 L nor that the hill-climbing mesh support is independent of earlier queries (the "
+          "cached start vertex IS state written by a query; its harmlessness is a convexity argument about runtime data).",
+          "DESIGN.md §4 C03")
+    claim("C04", "sibling-agreement rules + coordinate-frame (E2) and length-degree (E3) abstract interpretation",
+          "Decides structural necessary conditions only: each aabb() calls its own shape's function with the attributes stored "
+          "from the same-named constructor parameters (R-AABBARGS); Margin subtracts/adds the margin on lo/hi (R-MARGIN); axis "
+          "agreement (R-AXIS); all *_aabb functions and aabb() methods are frame consistent and return world-frame POINT bounds "
+          "(R-FRAME, R-FRAMERET); RigidBody.aabb must apply body2origin_ (R-WORLDAABB: known finding, body-frame box); every "
+          "extent is homogeneous of degree 1 (R-DEGREE). Enclosure and tightness of the closed-form extents are numerical and are "
+          "NOT decided (a frame- and degree-consistent wrong formula such as the rotated-ellipsoid extent is invisible here).",
+          "DESIGN.md §4 C04")
+    claim("C12", "coordinate-frame abstract interpretation (E2: equivariance), length-degree inference (E3: scaling), Minkowski "
+                 "pairing / collider order (argument swap)",
+          "Decides the structural content of the three invariances: frame consistency of every function that touches a pose "
+          "(R-FRAME over the non-hydroelastic package; world-frame point results, R-FRAMERET), dimensional homogeneity of every "
+          "sum/comparison/stack and degree-1 returns of the 34 distance functions (R-DEGREE, R-RETDEGREE; 3 reasoned "
+          "exceptions), collider-order preservation and A-B support points (R-MINK). Does not decide equality of results on "
+          "concrete transformed scenes within tolerance nor swap symmetry of leaf formulas.", "DESIGN.md §4 C12")
+    claim("C13", "comparison-polarity rule + coordinate-frame (E2) and length-degree (E3) abstract interpretation",
+          "Decides: inclusion comparisons non-strict / exclusion masks strict in all eight predicates and reductions only over "
+          "axis=1 (R-CLOSEDSET); world points moved with the inverse pose in row-vector convention (R-FRAME); squared distances "
+          "compared with squared sizes (R-DEGREE); axis agreement with support function and AABB (R-AXIS). Does not decide the "
+          "1e-9 L band nor agreement with point_to_<shape> on concrete points.", "DESIGN.md §4 C13")
+    for p in ["C06", "C10", "C11"]:
         na(p, PENDING)
     na("C17", "volumes, positivity, partition and potentials are numerical facts about generated vertex data over continuous "
               "parameters; the only static part (combinatorics of literal tables) is too small a share of the statement to "
